@@ -6,15 +6,60 @@ RULE = ("generated syntactically valid files: interleaved/repeated sections, lab
         "tcp/http/mtu grammars (every window form, ttl forms, ?N and eol+N options, all legal quirk sets, bracketed header values "
         "with commas, absent lists, software); observable = per section, in order: label dump, sys, raw text, line number and every "
         "structured signature field, plus len(db); non-trivial = at least one record loaded")
-ASSUMPTIONS = ["ASCII files; a 9th colon field / 5th label part is silently dropped (as the code does)"]
+RULE += ("; lines end in \\n, \\r\\n or a lone \\r (the last possibly unterminated) and carry the other ASCII characters str.strip() removes "
+         "(\\x0b \\x0c \\x1c-\\x1f) around the line and around '='; comment lines carry non-ASCII text incl. U+0085/U+2028/U+2029; a quarter of "
+         "the loads go into a Database object that already holds another file")
+ASSUMPTIONS = ["non-ASCII characters only inside comment lines (the model reads UTF-8 bytes); a 9th colon field / 5th label part is silently "
+               "dropped (as the code does)"]
 EXHAUSTIVE = {}
+
+
+XWS = ["\x0b", "\x0c", "\x1c", "\x1d", "\x1e", "\x1f", " ", "\t"]
+XCOMMENTS = ["; page\x0cbreak", ";\x0c", "; caf\u00e9 \u2028 sep", "; nel \x85 here", ";\u2029", "; \x1c\x1d\x1e fs gs rs", "; vt\x0b"]
+
+
+def decorate(R, lines):
+    """Whitespace str.strip() removes that is not a line end for text-mode reading; must leave the file valid."""
+    out = []
+    for l in lines:
+        k = D.line_kind(l)
+        if k == "skip":
+            if l.strip() == "" and l != "" and R.random() < 0.5:
+                l = "".join(R.choice(XWS) for _ in range(R.randint(1, 3)))
+            elif l.startswith(";") and R.random() < 0.5:
+                l = R.choice(XCOMMENTS)
+        elif R.random() < 0.4:
+            if k != "section" and "=" in l and R.random() < 0.5:
+                a, _, b = l.partition("=")
+                l = a + R.choice(XWS) + "=" + R.choice(XWS) + b
+            l = R.choice(XWS + [""]) + l + R.choice(XWS + [""])
+        out.append(l)
+        if R.random() < 0.08:
+            out.append(R.choice(["\x0c", "\x0b\x0c", "\x1c", "\x1e \x1f"] + XCOMMENTS))
+    return out
 
 
 def generate(R, tier):
     n = 2000 if tier == "quick" else 200000
-    for _ in range(n):
-        yield {"stream": "valid", "lines": D.valid_file(R)}
+    for i in range(n):
+        lines = D.valid_file(R)
+        c = {"stream": "valid", "lines": lines}
+        if R.random() < 0.5:
+            c["stream"] = "valid-exotic"
+            c["lines"] = lines = decorate(R, lines)
+            c["terms"] = [R.choice(["\n"] * 6 + ["\r\n", "\r"]) for _ in lines]
+            if lines and R.random() < 0.3:
+                c["terms"][-1] = ""
+        if R.random() < 0.25:
+            c["pre"] = D.valid_file(R, small=True)
+        yield c
     yield {"stream": "shipped", "shipped": True, "lines": []}
+
+
+def text_of(c):
+    ls = lines_of(c)
+    ts = c.get("terms") or ["\n"] * len(ls)
+    return "".join(l + t for l, t in zip(ls, ts))
 
 
 def hexline(l):
@@ -35,8 +80,7 @@ def lines_of(c):
 
 
 def model_line(c):
-    ls = lines_of(c)
-    return "parse_file %d %s" % (len(ls), " ".join(hexline(l) for l in ls))
+    return "parse_text %s" % hexline(text_of(c))
 
 
 def canon_model(mr):
@@ -56,7 +100,10 @@ def impl_init():
     from harness import implutil as U
 
     def impl(c):
-        db = U.load_db("\n".join(lines_of(c)) + "\n")
+        db = None
+        if c.get("pre") is not None:
+            db = U.load_db("\n".join(c["pre"]) + "\n")
+        db = U.load_db(text_of(c), db)
         return {"ok": U.dump_db(db)}
     return impl
 
@@ -93,5 +140,15 @@ def judge(c, ir, mr):
 
 def shrink(c):
     ls = c.get("lines") or []
+    ts = c.get("terms")
     for i in range(len(ls)):
-        yield dict(c, lines=ls[:i] + ls[i + 1:])
+        d = dict(c, lines=ls[:i] + ls[i + 1:])
+        if ts:
+            d["terms"] = ts[:i] + ts[i + 1:]
+        yield d
+    if ts and any(t != "\n" for t in ts):
+        yield dict(c, terms=["\n"] * len(ls))
+    pre = c.get("pre")
+    if pre:
+        for i in range(len(pre)):
+            yield dict(c, pre=pre[:i] + pre[i + 1:])
